@@ -38,14 +38,16 @@ def load_variants(prop=None):
 def _apply(root, v):
     """-> None if applied, else reason."""
     edits = v.get("edits") or [(v["file"], v["old"], v["new"])]
-    for file, old, new in edits:
+    for ed in edits:
+        file, old, new = ed[:3]
+        every = len(ed) > 3 and ed[3] == "all"
         p = os.path.join(root, PKG, file) if not file.startswith("@") else os.path.join(root, file[1:])
         if not os.path.exists(p):
             return f"file {file} missing"
         s = open(p, encoding="utf-8").read()
         if old not in s:
             return f"anchor text not found in {file}"
-        s2 = s.replace(old, new, 1)
+        s2 = s.replace(old, new) if every else s.replace(old, new, 1)
         try:
             ast.parse(s2)
         except SyntaxError as e:
